@@ -25,9 +25,74 @@ type LockRow struct {
 	Except map[string]string
 }
 
+// acquireWrappers: functions whose every return path holds (in write mode) the
+// named mutex of the object they return; verified by verifyAcquireWrapper before use.
+var acquireWrappers = map[string]string{}
+
+// verifyAcquireWrapper checks the summary: at every return of fn, the lockset
+// contains the mutex of the returned value in write mode.
+func verifyAcquireWrapper(fn *ssa.Function, mutex string) bool {
+	sets := locksets(fn, lockState{})
+	n := 0
+	for _, ret := range returnsOf(fn) {
+		n++
+		if len(ret.Results) == 0 {
+			return false
+		}
+		if sets[ret][lk(ret.Results[0], mutex)] < 2 {
+			return false
+		}
+	}
+	return n > 0
+}
+
+// lockKey identifies a held mutex by the ACCESS PATH of the object that owns it
+// (go/ssa performs no CSE, so two loads of s.limiter are different values; the
+// path "param:gc.limiter" is the same), the mutex field name and the object type.
 type lockKey struct {
-	root  ssa.Value
+	root  string
 	mutex string
+	rtype string
+}
+
+func lkey(v ssa.Value, mutex string) lockKey { return lk(v, mutex) }
+
+func lk(v ssa.Value, mutex string) lockKey {
+	return lockKey{accessPath(v), mutex, typeName(v.Type())}
+}
+
+// accessPath renders a value as parameter/free-variable/field path where
+// possible; other values are identified by SSA identity.
+func accessPath(v ssa.Value) string {
+	v = rootOf(v)
+	switch x := v.(type) {
+	case *ssa.Parameter:
+		return "param:" + x.Name()
+	case *ssa.FreeVar:
+		return "free:" + x.Name()
+	case *ssa.Global:
+		return "global:" + x.String()
+	case *ssa.UnOp:
+		if x.Op == token.MUL {
+			if fa, ok := x.X.(*ssa.FieldAddr); ok {
+				if st := structOf(fa.X.Type()); st != nil {
+					return accessPath(fa.X) + "." + st.Field(fa.Field).Name()
+				}
+			}
+			if g, ok := x.X.(*ssa.Global); ok {
+				return "global:" + g.String()
+			}
+		}
+	case *ssa.FieldAddr:
+		if st := structOf(x.X.Type()); st != nil {
+			return accessPath(x.X) + ".&" + st.Field(x.Field).Name()
+		}
+	case *ssa.Field:
+		if st := structOf(x.X.Type()); st != nil {
+			return accessPath(x.X) + "." + st.Field(x.Field).Name()
+		}
+	}
+	return fmt.Sprintf("%T@%p", v, v)
 }
 
 type lockState map[lockKey]int // 1 = read, 2 = write
@@ -133,7 +198,7 @@ func mutexEvent(in ssa.Instruction) (lockKey, int, bool) {
 	if fa, ok := recv.(*ssa.FieldAddr); ok {
 		st := structOf(fa.X.Type())
 		if st != nil {
-			return lockKey{rootOf(fa.X), st.Field(fa.Field).Name()}, mode, true
+			return lk(fa.X, st.Field(fa.Field).Name()), mode, true
 		}
 	}
 	// cond.L style: load of an interface field
@@ -141,11 +206,11 @@ func mutexEvent(in ssa.Instruction) (lockKey, int, bool) {
 		if fa, ok := u.X.(*ssa.FieldAddr); ok {
 			st := structOf(fa.X.Type())
 			if st != nil {
-				return lockKey{rootOf(fa.X), st.Field(fa.Field).Name()}, mode, true
+				return lk(fa.X, st.Field(fa.Field).Name()), mode, true
 			}
 		}
 	}
-	return lockKey{rootOf(recv), "?"}, mode, true
+	return lk(recv, "?"), mode, true
 }
 
 // locksets computes the must-hold lock state before every instruction of fn.
@@ -174,6 +239,12 @@ func locksets(fn *ssa.Function, entry lockState) map[ssa.Instruction]lockState {
 					cur[k] = mode
 				} else {
 					delete(cur, k)
+				}
+			}
+			// acquire wrappers: the returned object comes back with its mutex held
+			if cl, isCall := ins.(*ssa.Call); isCall {
+				if mu, isW := acquireWrappers[calleeName(cl.Common())]; isW {
+					cur[lk(cl, mu)] = 2
 				}
 			}
 		}
@@ -382,7 +453,7 @@ func checkLockRows(c *Ctx, r *Report, rule string, pkgs []string, rows []LockRow
 			}
 			root := rootOf(args[param])
 			st := ls(cs.Caller)[cs.Instr.(ssa.Instruction)]
-			if st[lockKey{root, mutex}] >= mode {
+			if st[lk(root, mutex)] >= mode {
 				continue
 			}
 			if isFreshObject(root) {
@@ -448,7 +519,7 @@ func checkLockRows(c *Ctx, r *Report, rule string, pkgs []string, rows []LockRow
 						nOK++
 						continue
 					}
-					if sets[a.in][lockKey{a.root, row.Mutex}] >= need {
+					if sets[a.in][lk(a.root, row.Mutex)] >= need {
 						nOK++
 						continue
 					}
@@ -500,6 +571,8 @@ func checkLockRows(c *Ctx, r *Report, rule string, pkgs []string, rows []LockRow
 			}
 		}
 	}
+	// atomicity across critical sections for the same rows
+	checkStaleReads(c, r, rule, pkgs, rows)
 	r.Extra["lock_accesses_"+rule] = total
 }
 
@@ -542,7 +615,7 @@ func closureRunsUnderLock(fn *ssa.Function, fv *ssa.FreeVar, mutex string, need 
 				}
 			}
 		}
-		held := sets[in][lockKey{root, mutex}] >= need
+		held := sets[in][lk(root, mutex)] >= need
 		if !held {
 			return
 		}
